@@ -375,13 +375,13 @@ class RetryExecutor(CanCustomizeBind, Executor):
         found_job = None
 
         with self._lock:
-            for idx, job in enumerate(self._jobs):
+            for job in self._jobs:
                 if job.future is future:
                     self._log.debug("Try cancel: %s", job)
 
                     if not job.delegate_future:
                         self._log.debug("Successful cancel - no delegate: %s", job)
-                        self._jobs.pop(idx)
+                        self._pop_job(job)
                         return True
 
                     found_job = job
